@@ -141,7 +141,7 @@ def expand(ctx: Ctx, pid: str, fam: list[dict], rng: random.Random) -> tuple[lis
         bases = bases + [{"ops": ["ok"], "links": lk, "phases": ["stateful"], "workers": 1, "max_failures": 0, "cof": False,
                           "unique": False, "mf_fault": occ} for lk in ("ok", "bad") for occ in ((1, 2, 3) if quick else (1, 2, 3, 4, 5, 6, 8))]
     elif pid == "C05":
-        nb = 36 if quick else 400
+        nb = 36 if quick else 160
         bases = (pick(lambda d: any(b in ("bad", "neterr", "invalid", "weird") for b in d["ops"]) and d["max_failures"] == 0, nb // 2)
                  + pick(lambda d: any(b == "weird" for b in d["ops"]), nb // 8 + 1)
                  + pick(lambda d: d["max_failures"] > 0 and d["workers"] >= 2 and any(b == "bad" for b in d["ops"])
@@ -149,9 +149,9 @@ def expand(ctx: Ctx, pid: str, fam: list[dict], rng: random.Random) -> tuple[lis
                  + pick(lambda d: d["links"] == "bad", nb // 6 + 1)
                  + pick(lambda d: all(b == "ok" for b in d["ops"]) and d["links"] != "bad", nb // 6 + 1)
                  + pick(lambda d: any(b == "badif" for b in d["ops"]), nb // 6 + 1))
-        recipe = {"stop": 0, "ctrlc": 0, "faults": 10 if quick else 30}
+        recipe = {"stop": 0, "ctrlc": 0, "faults": 10 if quick else 16}
     else:  # C12
-        nb = 60 if quick else 600
+        nb = 60 if quick else 250
         bases = (pick(lambda d: d["max_failures"] > 0 and any(b in ("bad", "neterr") for b in d["ops"]), nb // 3)
                  + pick(lambda d: d["unique"], nb // 4)
                  + pick(lambda d: d["max_failures"] == 0 and all(b in ("ok", "badif") for b in d["ops"]), nb // 4)
